@@ -305,6 +305,7 @@ def check_case(case):
     # ---- structural oracle
     if set(fused.phases) != set(dag_a.phases) | set(dag_b.phases) or fused.initial_phase != dag_a.initial_phase:
         return "fused method has phases %s / initial %s" % (sorted(fused.phases), fused.initial_phase), info
+    persistent_image = {}
     for pname in sorted(fused.phases):
         if pname not in dag_a.phases or pname not in dag_b.phases:
             only = dag_a.phases.get(pname) or dag_b.phases.get(pname)
@@ -357,6 +358,14 @@ def check_case(case):
                         pname, x, y, "it is persistent" if is_persistent(x) else "the predicate rejects it"), info
             elif y in pa_names:
                 return "phase %s: the second method's %s (now %s) collides with a name of the first method" % (pname, x, y), info
+        # a persistent variable lives across phases: where the caller's predicate has it renamed, it must become the
+        # same name in every phase
+        for x, y in rho.items():
+            if is_persistent(x):
+                if x in persistent_image and persistent_image[x][0] != y:
+                    return ("the second method's persistent %s becomes %s in phase %s but %s in phase %s"
+                            % (x, persistent_image[x][0], persistent_image[x][1], y, pname)), info
+                persistent_image.setdefault(x, (y, pname))
     # ---- behavioural oracle
     if case["pred"] in ("keep_one", "also_p", "only_one"):
         info["behaviour"] = "skipped (shared temporary / renamed persistent variables requested)"
@@ -426,8 +435,36 @@ def shrink(sub, case):
     return case
 
 
+def persistent_in_several_phases(case):
+    """Is there a <p> variable that both methods mention in some phase (so it is renamed there) and that the second
+    method also uses in a phase where the first does not mention it (so it is not renamed there)?  With the
+    predicate also_p that shape is the known finding persistent-rename-per-phase."""
+    def uses(method):
+        out = {}
+        for ph in method["phases"]:
+            names = set()
+            for op in walk_ops(ph["body"]):
+                if op[0] == "assign":
+                    names.add(op[1])
+                if op[0] == "call":
+                    names.update(op[1])
+                for t in op_trees(op):
+                    names |= T.variables(t)
+            for n_ in names:
+                if n_.startswith("<p>"):
+                    out.setdefault(n_, set()).add(ph["name"])
+        return out
+    ua, ub = uses(case["a"]), uses(case["b"])
+    return any((pb & ua.get(n_, set())) and not pb <= ua.get(n_, set()) for n_, pb in ub.items())
+
+
 def shard(ctx, n):
+    excl_rename = ctx.is_excluded("persistent_rename_across_phases")
+
     def body(case):
+        if excl_rename and case["pred"] == "also_p" and persistent_in_several_phases(case):
+            ctx.count("excluded_by_known_finding")
+            return
         msg, info = check_case(case)
         if "skip" in info:
             ctx.count("skipped_" + info["skip"])
